@@ -211,7 +211,7 @@ def run(ctx) -> None:
                                 cond = None
                             fnode = None
                             if isinstance(cond, ast.Call) and len(cond.args) == 1 and isinstance(cond.args[0], ast.Name) and cond.args[0].id == nm.group(2) and not cond.keywords:
-                                fnode = as_funcdef(cond.func) if isinstance(cond.func, (ast.Name, ast.Lambda)) else None
+                                fnode = as_funcdef(cond.func) if isinstance(cond.func, (ast.Name, ast.Lambda, ast.Call)) else None
                                 if fnode is None and isinstance(cond.func, ast.Attribute):
                                     fnode = as_funcdef(ast.Lambda(ast.arguments(posonlyargs=[], args=[ast.arg("x__")], kwonlyargs=[], kw_defaults=[], defaults=[]), ast.Call(cond.func, [ast.Name("x__", ast.Load())], [])))
                             elif cond is not None:
